@@ -131,6 +131,15 @@ def evaluate(wm, knobs, plan, ctx):
         only_e = sorted((expected - got).elements())[:3]
         V("location-mismatch", "--check reports %d locations, edit inserts at %d; only reported: %s; only edited: %s"
           % (sum(got.values()), ntok, only_c, only_e))
+    # against the model: every planted statement without an ID is a recognised statement lacking a reference - check and
+    # edit agreeing with each other is not enough when both overlook the same statements
+    per_file = collections.Counter(k[0] for k in expected.elements())
+    for p in sorted(wm["files"]):
+        want = sum(1 for s in world.file_stmts(wm["files"][p]) if world.stmt_id(s[2]) is None)
+        if per_file[p] < want and eres.status == 0:     # (more: a decoy that a custom macro list makes a real statement)
+            V("overlooked-statements", "%s (%d B) has %d planted statements without reference; --check reported %d there, edit inserted %d"
+              % (p, len(edt["before"][p]["data"]), want, sum(v for k, v in got.items() if k[0] == p), per_file[p]))
+            break
     if rep["total"] != ntok:
         V("total-mismatch", "--check total %d, edit inserted %d tokens" % (rep["total"], ntok))
     if (cres.status != 0) != (ntok > 0):
